@@ -45,6 +45,7 @@ PRELUDE = r'''
 #include "nmtools/utility/isequal.hpp"
 #include "nmtools/utility/cast.hpp"
 #include "nmtools/utl.hpp"
+#include "nmtools/array/eval.hpp"
 #include <type_traits>
 namespace nm = nmtools; namespace na = nm::array; namespace view = nm::view; namespace meta = nm::meta; namespace utl = nm::utl;
 using namespace nmtools::literals;
@@ -74,6 +75,17 @@ using b23_a = na::ndarray_t<nmtools_array<bool,6>, nmtools_array<size_t,2>>;
 template <class T> using t23_a = na::ndarray_t<nmtools_array<T,6>, nmtools_array<size_t,2>>;   // any element type, run-time (2-d) shape
 template <class V> using elem_of = meta::get_element_type_t<V>;
 template <class X> using access_of = std::remove_cv_t<std::remove_reference_t<X>>;
+// the array type the default evaluator allocates for a view: when the view's element count is not a compile-time constant, the
+// buffer must be able to hold fewer elements than its capacity (an ndarray with a fixed-length buffer and a non-constant shape can
+// only represent shapes whose extents multiply to exactly that length: ndarray_t::resize refuses every other shape)
+template <class B, class = void> struct can_shrink : std::false_type {};
+template <class B> struct can_shrink<B, std::void_t<decltype(std::declval<B&>().resize(size_t{}))>> : std::true_type {};
+// (the resolver every eager function under array/array passes: eval_result_t<>, and its column-major sibling)
+template <class V, class RES> using eval_result_of = std::remove_cv_t<std::remove_reference_t<decltype(na::eval(std::declval<const V&>(), nm::None, nm::None, meta::as_value_v<RES>))>>;
+template <class V, class RES = na::eval_result_t<>> constexpr bool result_holds_every_size() { if constexpr (meta::is_fixed_size_v<V>) return true; else return can_shrink<typename eval_result_of<V,RES>::buffer_type>::value; }
+using dyn12_a = na::ndarray_t<nmtools_list<float>, nmtools_list<size_t>>;
+using lhyb12_a = na::hybrid_ndarray<float,12,2>;
+using clipnew = nmtools_tuple<nm::clipped_size_t<6>,nm::clipped_size_t<4>>;   // a (<=6, <=4) target shape
 '''
 
 def W(id, prop, kind, why, code):
@@ -228,6 +240,25 @@ def _elem_witnesses():
     both("c04_where_double_int", "C04", "where(cond, double x, int y): element type is the common type of x and y", "nm::unwrap(view::where(c, xd, xi))")
     return out
 WITNESSES += _elem_witnesses()
+
+# ---------------- C10: the array type the default evaluator allocates can represent every shape the view can take
+def _result_witnesses():
+    out = []
+    srcs = dict(dyn="dyn12_a", hyb="lhyb12_a", vec="nmtools_list<float>")
+    views = dict(
+        reshape_clipped=("reshape(a, clipped (<=6,<=4) shape)", "nm::unwrap(view::reshape(a, clipnew{}))"),
+        transpose_reshape_clipped=("transpose(reshape(a, clipped shape))", "nm::unwrap(view::transpose(nm::unwrap(view::reshape(a, clipnew{}))))"),
+        add_reshape_clipped=("add(reshape(a, clipped shape), 1)", "nm::unwrap(view::add(nm::unwrap(view::reshape(a, clipnew{})), 1.f))"),
+        reshape_rt=("reshape(a, run-time (2-d) shape)", "nm::unwrap(view::reshape(a, nmtools_array<size_t,2>{3,4}))"),
+        flatten=("flatten(a)", "nm::unwrap(view::flatten(a))"),
+    )
+    for sk, st in srcs.items():
+        for vk, (vn, ve) in views.items():
+            out.append(W("c10_result_%s_%s" % (vk, sk), "C10", "pass",
+                "%s over a %s source: the evaluator's result buffer can hold any element count the view can have (not only its upper bound)" % (vn, sk),
+                "void f(%s& a){ using V = decltype(%s); static_assert(result_holds_every_size<V>()); static_assert(result_holds_every_size<V, na::eval_result_t<na::LayoutKind::COLUMN_MAJOR>>()); }" % (st, ve)))
+    return out
+WITNESSES += _result_witnesses()
 
 # ---------------- C07: the element type of an element-wise view is the type the scalar operation yields for the operand element types
 #                  (C++ usual arithmetic conversions, bool for comparisons)
